@@ -113,3 +113,65 @@ Proof.
   - apply agreeb_spec, H5.
   - intros k Hk. rewrite forallb_forall in H6. apply cons_holdsb_spec, H6, Hk.
 Qed.
+
+(* ---------- and conversely: validb decides the class ------------------- *)
+Lemma gates_okb_complete sp gs : forall i0,
+  (forall i g, nth_error gs i = Some g -> gate_ok sp (i0 + i) g) -> gates_okb sp i0 gs = true.
+Proof.
+  induction gs as [|g0 gs IH]; intros i0 H; [reflexivity|]. simpl.
+  destruct (H 0 g0 eq_refl) as [H1 [H2 [H3 H4]]]. rewrite Nat.add_0_r in H2.
+  rewrite !andb_true_iff. repeat split.
+  - apply Nat.ltb_lt, H1.
+  - apply Nat.ltb_lt, H2.
+  - apply mem_tt_In, H3.
+  - destruct (sp_norm sp); [|reflexivity]. rewrite H4; reflexivity.
+  - apply IH. intros i g E. replace (S i0 + i) with (i0 + S i) by lia. apply H. exact E.
+Qed.
+
+Lemma cons_holdsb_complete sp c k : cons_holds sp c k -> cons_holdsb sp c k = true.
+Proof.
+  destruct k as [g fp sd gt|from to]; simpl.
+  - intros [x [E [Hp Ht]]]. rewrite E. apply andb_true_iff. split.
+    + destruct fp as [f|], sd as [d|]; simpl in Hp; try reflexivity.
+      * destruct Hp as [-> ->]. rewrite !Nat.eqb_refl. reflexivity.
+      * apply orb_true_iff. rewrite !Nat.eqb_eq. exact Hp.
+      * apply orb_true_iff. rewrite !Nat.eqb_eq. exact Hp.
+    + destruct gt as [t|]; [|reflexivity]. rewrite Ht. simpl. apply tt4_eqb_eq'. reflexivity.
+  - intros [x [E [Ha Hb]]]. rewrite E. rewrite andb_true_iff, !negb_true_iff, !Nat.eqb_neq. auto.
+Qed.
+
+Lemma in_combine_seq {B} (l : list B) : forall s k h o,
+  In (h, o) (combine (seq s k) l) -> s <= h /\ nth_error l (h - s) = Some o.
+Proof.
+  induction l as [|y l IH]; intros s k h o Hin; [destruct (seq s k); destruct Hin|].
+  destruct k as [|k]; [destruct Hin|]. simpl in Hin. destruct Hin as [E|Hin].
+  - inversion E; subst. rewrite Nat.sub_diag. auto.
+  - apply IH in Hin. destruct Hin as [Hle E]. split; [lia|].
+    replace (h - s) with (S (h - S s)) by lia. exact E.
+Qed.
+
+Lemma agreeb_complete sp c :
+  (forall h t v o, t < 2 ^ sp_n sp -> out_at sp h t = Some v -> nth_error (ck_outs c) h = Some o ->
+                   value (sp_n sp) (ck_gates c) t o = v) -> agreeb sp c = true.
+Proof.
+  intros H. unfold agreeb. apply forallb_forall. intros [h o] Hin. simpl.
+  apply in_combine_seq in Hin. destruct Hin as [_ En]. rewrite Nat.sub_0_r in En.
+  apply forallb_forall. intros t Ht. apply in_seq in Ht.
+  destruct (out_at sp h t) as [v|] eqn:Eo; [|reflexivity].
+  apply Bool.eqb_true_iff. apply (H h t v o); [lia|exact Eo|exact En].
+Qed.
+
+Theorem validb_complete sp c : Valid sp c -> validb sp c = true.
+Proof.
+  intros Hv. unfold validb. rewrite !andb_true_iff. repeat split.
+  - apply Nat.eqb_eq, (v_len sp c Hv).
+  - apply gates_okb_complete. intros i g E. apply (v_gates sp c Hv i g E).
+  - apply Nat.eqb_eq, (v_outs_len sp c Hv).
+  - apply forallb_forall. intros o Ho. pose proof (v_outs sp c Hv o Ho) as [H1 H2].
+    apply andb_true_iff. split; [apply Nat.leb_le, H1|apply Nat.ltb_lt, H2].
+  - apply agreeb_complete, (v_agree sp c Hv).
+  - apply forallb_forall. intros k Hk. apply cons_holdsb_complete, (v_cons sp c Hv k Hk).
+Qed.
+
+Theorem validb_spec sp c : validb sp c = true <-> Valid sp c.
+Proof. split; [apply validb_sound|apply validb_complete]. Qed.
